@@ -175,27 +175,33 @@ def gq(name, wrap, mutex, ops, rounds, cover_extra=0, **kw):
 
 def c01(tier):
     qs = []
+    R = 3 if tier == 'quick' else 4
+    to = 900 if tier == 'quick' else 3000
     if tier == 'quick':
         qs.append(gq('guarded_mutex', 'guarded', 'mutex', [['LOCK_RMW', 'LOAD'], ['TRY_RMW', 'STORE']], 3))
         qs.append(gq('guarded_timed', 'guarded', 'timed_mutex', [['TRYFOR_RMW', 'LOCK_RMW'], ['TRYUNTIL_RMW', 'ASSIGN']], 3))
         qs.append(gq('guarded_opt_mutex', 'guarded_opt', 'mutex', [['LOCK_RMW', 'STORE'], ['LOAD', 'TRY_RMW']], 3))
-        qs.append(gq('shared_guarded_smutex', 'shared_guarded', 'shared_mutex', [['LOCK_RMW', 'TRY_RMW'], ['LOCK_RMW']], 3))
-        qs.append(gq('shared_guarded_opt_stm', 'shared_guarded_opt', 'shared_timed_mutex', [['TRYFOR_RMW', 'LOCK_RMW'], ['TRYUNTIL_RMW']], 3))
         qs.append(gq('ordered_stm', 'ordered_guarded', 'shared_timed_mutex', [['MODIFY', 'LOAD'], ['STORE', 'MODIFY']], 3))
         qs.append(gq('guarded_mutex_3t', 'guarded', 'mutex', [['LOCK_RMW'], ['LOCK_RMW'], ['TRY_RMW']], 2))
-    else:
-        excl = ['LOCK_RMW', 'TRY_RMW']
-        for w in ('guarded', 'guarded_opt', 'shared_guarded', 'shared_guarded_opt'):
-            for m in MUTEXES:
-                timed = m in ('timed_mutex', 'shared_timed_mutex')
-                t1 = ['LOCK_RMW', 'TRYFOR_RMW' if timed else 'TRY_RMW']
-                t2 = ['TRYUNTIL_RMW' if timed else 'TRY_RMW', 'LOCK_RMW']
-                t3 = ['LOAD', 'STORE'] if w in ('guarded', 'guarded_opt') else ['LOCK_RMW']
-                qs.append(gq(f'{w}_{m}_3t_R3', w, m, [t1, t2, t3], 3, timeout=2400))
+    # every wrapper x mutex type, three threads, two operations each
+    for w in ('guarded', 'guarded_opt', 'shared_guarded', 'shared_guarded_opt'):
         for m in MUTEXES:
-            qs.append(gq(f'ordered_{m}_3t_R3', 'ordered_guarded', m, [['MODIFY', 'LOAD'], ['STORE', 'MODIFY'], ['MODIFY', 'ASSIGN']], 3, timeout=2400))
-        qs.append(gq('guarded_mutex_4t_R2', 'guarded', 'mutex', [['LOCK_RMW'], ['TRY_RMW'], ['LOAD'], ['ASSIGN']], 2, timeout=2400))
-        qs.append(gq('guarded_mutex_2t_R4', 'guarded', 'mutex', [['LOCK_RMW', 'LOAD'], ['TRY_RMW', 'STORE']], 4, timeout=2400))
+            timed = m in ('timed_mutex', 'shared_timed_mutex')
+            t1 = ['LOCK_RMW', 'TRYFOR_RMW' if timed else 'TRY_RMW']
+            t2 = ['TRYUNTIL_RMW' if timed else 'TRY_RMW', 'LOCK_RMW']
+            t3 = ['LOAD', 'STORE'] if w in ('guarded', 'guarded_opt') else ['LOCK_RMW']
+            qs.append(gq(f'{w}_{m}_3t_R{R}', w, m, [t1, t2, t3], R, timeout=to))
+    for m in MUTEXES:
+        qs.append(gq(f'ordered_{m}_3t_R{R}', 'ordered_guarded', m, [['MODIFY', 'LOAD'], ['STORE', 'MODIFY'], ['MODIFY', 'ASSIGN']], R, timeout=to))
+        qs.append(gq(f'ordered_{m}_store_store_R{R}', 'ordered_guarded', m, [['STORE', 'LOAD'], ['STORE', 'ASSIGN'], ['ASSIGN', 'LOAD']], R, timeout=to))
+    if tier != 'quick':
+        for w in ('guarded', 'guarded_opt'):
+            for m in MUTEXES:
+                qs.append(gq(f'{w}_{m}_4t_R3', w, m, [['LOCK_RMW'], ['TRY_RMW'], ['LOAD', 'STORE'], ['ASSIGN', 'LOCK_RMW']], 3, timeout=to))
+        for w in ('shared_guarded', 'shared_guarded_opt'):
+            for m in MUTEXES:
+                qs.append(gq(f'{w}_{m}_4t_R3', w, m, [['LOCK_RMW'], ['TRY_RMW'], ['LOCK_RMW', 'TRY_RMW'], ['TRY_RMW', 'LOCK_RMW']], 3, timeout=to))
+        qs.append(gq('guarded_mutex_2t_L3_R5', 'guarded', 'mutex', [['LOCK_RMW', 'LOAD', 'STORE'], ['TRY_RMW', 'STORE', 'LOCK_RMW']], 5, timeout=to))
     return qs
 
 
@@ -208,25 +214,31 @@ SPECS['C01'] = dict(queries=c01, assumptions=COMMON_ASSUMPTIONS + [
 
 def c02(tier):
     qs = []
+    R = 3 if tier == 'quick' else 4
+    to = 900 if tier == 'quick' else 3000
     if tier == 'quick':
         qs.append(gq('shared_guarded_smutex_rrw', 'shared_guarded', 'shared_mutex', [['SHARED_READ'], ['SHARED_READ'], ['LOCK_RMW']], 3, cover_extra=128))
         qs.append(gq('shared_guarded_stm_timed', 'shared_guarded', 'shared_timed_mutex', [['TRYSHAREDFOR_READ'], ['CLOCK_READ'], ['TRYFOR_RMW']], 3, cover_extra=128))
         qs.append(gq('ordered_stm_read_modify', 'ordered_guarded', 'shared_timed_mutex', [['CLOCK_READ'], ['SHARED_READ'], ['MODIFY']], 3, cover_extra=128))
         qs.append(gq('shared_guarded_mutex_fallback', 'shared_guarded', 'mutex', [['SHARED_READ'], ['TRYSHARED_READ'], ['LOCK_RMW']], 3))
-        qs.append(gq('shared_guarded_opt_timed_fallback', 'shared_guarded_opt', 'timed_mutex', [['TRYSHAREDUNTIL_READ'], ['SHARED_READ'], ['TRY_RMW']], 3))
-        qs.append(gq('ordered_smutex_store', 'ordered_guarded', 'shared_mutex', [['SHARED_READ', 'TRYSHARED_READ'], ['STORE', 'MODIFY']], 3))
         qs.append(gq('ordered_stm_timed_shared', 'ordered_guarded', 'shared_timed_mutex', [['TRYSHAREDFOR_READ'], ['TRYSHAREDUNTIL_READ'], ['MODIFY', 'STORE']], 3))
-        qs.append(gq('ordered_tm_timed_shared_fallback', 'ordered_guarded', 'timed_mutex', [['TRYSHAREDFOR_READ', 'TRYSHARED_READ'], ['MODIFY']], 3))
-    else:
+    for w in ('shared_guarded', 'shared_guarded_opt', 'ordered_guarded'):
+        for m in MUTEXES:
+            timed = m in ('timed_mutex', 'shared_timed_mutex')
+            sharedcap = m in ('shared_mutex', 'shared_timed_mutex')
+            r1 = ['SHARED_READ', 'TRYSHAREDFOR_READ' if timed else 'TRYSHARED_READ']
+            r2 = ['CLOCK_READ', 'TRYSHAREDUNTIL_READ' if timed else 'TRYSHARED_READ']
+            wr = ['MODIFY', 'STORE'] if w == 'ordered_guarded' else ['LOCK_RMW', 'TRYFOR_RMW' if timed else 'TRY_RMW']
+            qs.append(gq(f'{w}_{m}_rrw_R{R}', w, m, [r1, r2, wr], R, cover_extra=128 if sharedcap else 0, timeout=to))
+    if tier != 'quick':
         for w in ('shared_guarded', 'shared_guarded_opt', 'ordered_guarded'):
             for m in MUTEXES:
                 timed = m in ('timed_mutex', 'shared_timed_mutex')
                 sharedcap = m in ('shared_mutex', 'shared_timed_mutex')
-                r1 = ['SHARED_READ', 'TRYSHAREDFOR_READ' if timed else 'TRYSHARED_READ']
-                r2 = ['CLOCK_READ', 'TRYSHAREDUNTIL_READ' if timed else 'TRYSHARED_READ']
-                wr = ['MODIFY', 'STORE'] if w == 'ordered_guarded' else ['LOCK_RMW', 'TRYFOR_RMW' if timed else 'TRY_RMW']
-                qs.append(gq(f'{w}_{m}_rrw_R3', w, m, [r1, r2, wr], 3, cover_extra=128 if sharedcap else 0, timeout=2400))
-        qs.append(gq('shared_guarded_smutex_rrww_R2', 'shared_guarded', 'shared_mutex', [['SHARED_READ'], ['SHARED_READ'], ['LOCK_RMW'], ['TRY_RMW']], 2, cover_extra=128, timeout=2400))
+                wr1 = ['MODIFY'] if w == 'ordered_guarded' else ['LOCK_RMW']
+                wr2 = ['STORE'] if w == 'ordered_guarded' else ['TRY_RMW']
+                qs.append(gq(f'{w}_{m}_rrww_R3', w, m, [['SHARED_READ'], ['TRYSHARED_READ', 'CLOCK_READ'], wr1, wr2], 3,
+                             cover_extra=128 if sharedcap else 0, timeout=to))
     return qs
 
 
@@ -462,6 +474,8 @@ def c14(tier):
             qs.append(rq('rcu_reader_solo_after_R2_o' + s_, 'ABC', 2, order=o, defines=d, solo=[['A']], timeout=3000))
         qs.append(mk('lr_writer_solo_after_readers_R3', 'c03_lr.cpp', [W, R1, R2], 3, solo=[['R1', 'R2', 'W']], defines=['NWRITES=2', 'NREADS=2'], final='vp_final', cover=3, timeout=3000))
         qs.append(rq('rcu_writer_solo_after_readers_R2', 'ABC', 2, order=(0, 2, 1), defines=d, solo=[['A', 'C', 'B']], timeout=3000))
+        qs.append(cowq('cow_reader_solo_after_writer_R2', 'WR', 2, order=(0, 1), defines=['WMODE=0', 'NSNAP=1'], solo=[['R']], timeout=3400))
+        qs.append(cowq('cow_writer_solo_after_reader_R2', 'WR', 2, order=(1, 0), defines=['WMODE=0', 'NSNAP=1'], solo=[['R', 'W']], timeout=3400))
     return qs
 
 
@@ -545,6 +559,7 @@ def c20(tier):
         qs.append(tq('guarded_throw_store_load_R4', 'guarded', [['STORE', 'LOAD'], ['ASSIGN', 'LOAD']], 4, timeout=3000))
         qs.append(tq('atomic_throw_xchg_cas_R4', 'atomic_guarded', [['XCHG', 'LOAD'], ['CAS', 'STORE']], 4, timeout=3000))
         qs.append(tq('atomic_throw_cas_cas_R3', 'atomic_guarded', [['CAS', 'ASSIGN'], ['CAS', 'XCHG']], 3, timeout=3000))
+        qs.append(cowq('cow_throwing_copy_reader_R2', 'WR', 2, defines=['WMODE=0', 'NSNAP=1', 'THROWING_COPY'], timeout=3400))
     return qs
 
 
@@ -649,9 +664,6 @@ def c06(tier):
     else:
         qs.append(mk('deferred_seq_queue_drain', 'c06_deferred.cpp', [], 1, seq=['vp_seq1'], final='vp_final', cover=1, defines=['EXPECT=3'], **seq))
         qs.append(mk('deferred_seq_direct_then_queue', 'c06_deferred.cpp', [], 1, seq=['vp_seq2'], final='vp_final', cover=1, defines=['EXPECT=2'], **seq))
-        qs.append(dq('deferred_detach_reader_R2', [S1, Rd], 2, ['NSUB1=1', 'NSUB2=0', 'KIND1=0'], cover=5, timeout=3400))
-        qs.append(dq('deferred_reader_detach_R2', [S1, Rd], 2, ['NSUB1=1', 'NSUB2=0', 'KIND1=0'], order=(1, 0), cover=5, timeout=3400))
-        qs.append(dq('deferred_detach_detach_R2', [S1, S2], 2, ['NSUB1=1', 'NSUB2=1', 'KIND1=0', 'KIND2=0'], cover=3, timeout=3400))
     return qs
 
 
@@ -659,7 +671,21 @@ SPECS['C06'] = dict(queries=c06, assumptions=COMMON_ASSUMPTIONS + [
     "<future> is the harness-local replacement harness/stubstd/future (promise/future/packaged_task over mutex + condition_variable, documented contract); "
     "the real libstdc++ <future> keeps its state behind libstdc++.so entry points for which no IR exists",
     "quick tier: single-thread scenarios in which the queued path is forced by a shared handle held by the same thread (enqueue, pending flag, drain order, "
-    "exclusivity of the drain, futures); the interleavings of submitters, readers and drainers are decided only in the thorough tier, at 2 threads and 2 rounds",
+    "exclusivity of the drain, futures); the interleavings of submitters, readers and drainers are NOT decided: two-thread queries (one modify_detach is ~70-100 visible steps over vector growth, packaged_task and shared state) exhausted memory in cbmc's propositional reduction [measured, 2 attempts]",
     "virtual run_task / packaged_task invocation run atomically (indirect calls); std::try_to_lock never fails spuriously"],
-    outside=["more than 2 threads or 2 rounds: a single modify_detach is ~100 visible steps (vector growth, packaged_task, shared state), three-thread queries did not terminate in 20 min",
-             "modify_async under concurrency (thorough tier has it only sequentially)", "exceptions thrown by queued functors under concurrency"])
+    outside=["every genuinely concurrent schedule (e.g. a drainer that cleared the pending flag but has not taken the lock yet while a direct-path submitter runs): seeded change C06-s1 needs one and is missed",
+             "exceptions thrown by queued functors"])
+
+
+# ------------------------------------------------------------------------------------------------ not claimed
+NOT_APPLICABLE = {
+    'C16': "DelayedDestructor: std::vector<shared_ptr<X>> growth, libstdc++'s 4x hand-unrolled std::remove_if/std::find and std::function copies made even the "
+           "sequential symbolic query (two objects, symbolic drop points) exceed 10 min / the memory cap in cbmc's symbolic execution [measured]; with every choice "
+           "concretised the run is a concrete execution (a test), not a solver verdict. Heap-backed containers are outside what this encoding reaches.",
+    'C17': "SearchableObjectHolder: every operation goes through std::map<std::string, ...> (red-black-tree routines in libstdc++.so are modelled, but symbolic-content "
+           "std::string construction/comparison plus vector<Y> copies per entry are beyond the encoding, cf. C16/C18 measurements). Defect D3 (use of the erased node's key in "
+           "removeObject(predicate)) was found by reading, confirmed with ASan and repaired in /repo (fix: 5c115ee); no solver check decides C17.",
+    'C18': "DelayedObjects: std::map<int/string, std::promise<X>> with symbolic keys/operation sequences did not finish symbolic execution in 10 min (two symbolic "
+           "operations) [measured]; <future> itself had to be replaced by a stub (its state lives behind libstdc++.so entry points). A harness and the tree/future models "
+           "exist (harness/c18_delayedobj.cpp, engine/vpmodels.h) but produce no verdict inside any budget tried, so the property is not claimed.",
+}
